@@ -397,11 +397,10 @@ def _decorate_namespace_property(
         for base in bases:
             if _base_provides(base, key):
                 base_property = getattr(base, key)
-                assert isinstance(
-                    base_property, property
-                ), "Expected base {} to have {} as property, but got: {}".format(
-                    base, key, base_property
-                )
+                if not isinstance(base_property, property):
+                    # The property overrides a plain class attribute or a method of the base; there are
+                    # no contracts of an accessor to be inherited from this base.
+                    continue
 
                 if func == value.fget:
                     accessor_name = "fget"
